@@ -128,33 +128,38 @@ fn grow_case(pre: usize, offset: usize, size: usize) {
     }
 }
 
+/// Accepted regions on empty / dirty memory: growth to the next word boundary, the first byte
+/// of the next word, the last byte below 96, and a region that ends exactly at the old size.
 #[kani::proof]
-#[kani::unwind(100)]
+#[kani::unwind(70)]
 fn c18_get_memory_region_grow() {
     // (pre, offset, size), offset + size <= 96
-    let cases: [(usize, usize, usize); 8] = [
-        (0, 0, 1),
-        (0, 31, 1),
-        (0, 31, 2),
-        (0, 64, 32),
-        (32, 0, 32),  // exactly the old size: no growth
-        (32, 32, 1),  // first byte of the next word
-        (32, 95, 1),
-        (64, 1, 95),
-    ];
-    let mut c = 0;
-    while c < 8 {
-        grow_case(cases[c].0, cases[c].1, cases[c].2);
-        c += 1;
-    }
-    // no region, dirty memory: one representative per class
+    grow_case(0, 31, 2);
+    grow_case(32, 32, 1);
+    grow_case(32, 95, 1);
+    grow_case(32, 0, 32); // exactly the old size: no growth
+    grow_case(0, 0, 1);
+}
+
+/// Thorough tier: further accepted regions.
+#[kani::proof]
+#[kani::unwind(100)]
+fn c18_get_memory_region_grow_more() {
+    grow_case(0, 31, 1);
+    grow_case(0, 64, 32);
+    grow_case(64, 1, 95);
+    grow_case(32, 33, 31);
+}
+
+/// No region (empty / rejected) on DIRTY memory: one concrete representative per class; the
+/// classes themselves are covered exhaustively by c18_get_memory_region on empty memory.
+#[kani::proof]
+#[kani::unwind(40)]
+fn c18_get_memory_region_untouched() {
     let m32 = 0xFFFF_FFFFu64;
     untouched_case(U256([u64::MAX; 4]), U256::zero(), true); // empty region at offset 2^256-1
     untouched_case(U256::zero(), U256([m32 + 1, 0, 0, 0]), false); // size 2^32
     untouched_case(U256::zero(), U256([1, 0, 0, 1]), false); // size 2^192+1 (low limbs small)
-    untouched_case(U256([m32 + 1, 0, 0, 0]), U256::from(1u64), false); // offset 2^32
     untouched_case(U256([0, 1, 0, 0]), U256::from(1u64), false); // offset 2^64 (low limb 0)
     untouched_case(U256([m32, 0, 0, 0]), U256::from(1u64), false); // offset + size = 2^32
-    untouched_case(U256([m32 - 7, 0, 0, 0]), U256::from(40u64), false);
-    kani::cover!(c == 8);
 }
